@@ -201,7 +201,7 @@ CONTRACTS = {
 
  M + 'optimisation_mincost': dict(
     params={'cost_multipliers': ('list', 'int')},
-    requires=MODEL_OK + ['pairs_ok(self.model)', "not used('obj_mincost')"],
+    requires=MODEL_OK + ['pairs_ok(self.model)', "not used('obj_mincost')", ('pair-variables-are-binary', 'implies(feas(), pairs_binary(self.model))', ['every-feasible-matching-fits-the-objective-variable', 'parts-within-their-bounds']), ('partial-assignment-constraints-present', 'implies(feas(), rows_partial(self.model))', ['every-feasible-matching-fits-the-objective-variable', 'parts-within-their-bounds']), ('multipliers-non-negative', 'forall(t, 0, len(cost_multipliers), cost_multipliers[t] >= 0)', ['every-feasible-matching-fits-the-objective-variable', 'parts-within-their-bounds']), ('ranks-bounded', "forall(i, 0, len(self.model.pairs), forall(c, 0, len(self.model.pairs[i]), self.model.pairs[i][c].rank_student <= self.model.num_projects and implies(has(self.model.pairs[i][c], 'rank_lecturer'), 1 <= self.model.pairs[i][c].rank_lecturer and self.model.pairs[i][c].rank_lecturer <= self.model.num_students)))", ['every-feasible-matching-fits-the-objective-variable', 'parts-within-their-bounds'])],
     defs={'o': ([], "namedvar('obj_mincost')"),
           'sm': ([], 'ite(len(cost_multipliers) < 1, 1, cost_multipliers[0])'),
           'lm': ([], 'ite(len(cost_multipliers) < 2, 0, cost_multipliers[1])'),
@@ -209,15 +209,18 @@ CONTRACTS = {
           'total': ([], 'Sum(i, len(self.model.pairs), Sum(c, len(self.model.pairs[i]), cost(self.model.pairs[i][c])))'),
           'UB': ([], 'self.model.num_students * self.model.num_projects * sm() + self.model.num_students * self.model.num_students * lm()')},
     loops={0: dict(invariant=['sum_costs_exp == Sum(q, _k, cost(flat(self.model.pairs)[q]))'])},
-    use_lemmas={'loop0.exit': [('FLAT/sum', {'rows': 'self.model.pairs', 'g': 'lam(x, 1, cost(ref(x)))'})]},
+    use_lemmas={'loop0.exit': [('FLAT/sum', {'rows': 'self.model.pairs', 'g': 'lam(x, 1, cost(ref(x)))'})],
+                'return': [('C02/mincost-bound', {'m': 'self.model', 'sm': 'sm()', 'lm': 'lm()', 'KK': 'self.model.num_projects * sm() + self.model.num_students * lm()'}, 'if-applicable', ['every-feasible-matching-fits-the-objective-variable'])]},
     modifies=['self.info_string', 'self.solve_performed', 'ghost:feas', 'ghost:val', 'ghost:status', 'ghost:hist', 'ghost:solves', 'ghost:objective', 'ghost:feas_at_solve', 'ghost:used:obj_mincost'],
     ensures=[('cost-linked-minimised-frozen', 'feas() == (old(feas()) and 0 <= nu(o()) and nu(o()) <= UB() and total() == nu(o()) and nu(o()) <= solved(o()))'),
              ('one-solve', 'solves() == old(solves()) + 1 and hist(old(solves())) == status()'), ('earlier-history-unchanged', 'forall(u, implies(u < old(solves()), hist(u) == old(hist(u))))'), ('solve-recorded', 'implies(solves() > old(solves()), self.solve_performed) and implies(solves() == old(solves()), self.solve_performed == old(self.solve_performed))'),
-             ('minimises', 'objective() == 0 - nu(o())'), ('name-used', "used('obj_mincost')")]),
+             ('minimises', 'objective() == 0 - nu(o())'), ('name-used', "used('obj_mincost')"),
+             # witness-in-bounds (lemma C02/mincost-bound): the weighted cost of EVERY matching feasible before the criterion fits the objective variable
+             ('every-feasible-matching-fits-the-objective-variable', 'implies(old(feas()), 0 <= total() and total() <= UB())')]),
 
  M + 'optimisation_minsqcost': dict(
     params={'cost_multipliers': ('list', 'int')},
-    requires=MODEL_OK + ['pairs_ok(self.model)', "not used('obj_minsqcost')"],
+    requires=MODEL_OK + ['pairs_ok(self.model)', "not used('obj_minsqcost')", ('pair-variables-are-binary', 'implies(feas(), pairs_binary(self.model))', ['every-feasible-matching-fits-the-objective-variable', 'parts-within-their-bounds']), ('partial-assignment-constraints-present', 'implies(feas(), rows_partial(self.model))', ['every-feasible-matching-fits-the-objective-variable', 'parts-within-their-bounds']), ('multipliers-non-negative', 'forall(t, 0, len(cost_multipliers), cost_multipliers[t] >= 0)', ['every-feasible-matching-fits-the-objective-variable', 'parts-within-their-bounds']), ('ranks-bounded', "forall(i, 0, len(self.model.pairs), forall(c, 0, len(self.model.pairs[i]), self.model.pairs[i][c].rank_student <= self.model.num_projects and implies(has(self.model.pairs[i][c], 'rank_lecturer'), 1 <= self.model.pairs[i][c].rank_lecturer and self.model.pairs[i][c].rank_lecturer <= self.model.num_students)))", ['every-feasible-matching-fits-the-objective-variable', 'parts-within-their-bounds']), ('one-rank-list-per-rank', 'is_max_rank(self.model, len(self.model.rank_lists))', ['every-feasible-matching-fits-the-objective-variable', 'parts-within-their-bounds'])],
     defs={'o': ([], "namedvar('obj_minsqcost')"),
           'sm': ([], 'ite(len(cost_multipliers) < 1, 1, cost_multipliers[0])'),
           'lm': ([], 'ite(len(cost_multipliers) < 2, 0, cost_multipliers[1])'),
@@ -225,27 +228,37 @@ CONTRACTS = {
           'total': ([], 'Sum(i, len(self.model.pairs), Sum(c, len(self.model.pairs[i]), cost(self.model.pairs[i][c])))'),
           'UB': ([], '(self.model.num_students * len(self.model.rank_lists)) * (self.model.num_students * len(self.model.rank_lists)) * sm() + (self.model.num_students * self.model.num_students) * (self.model.num_students * self.model.num_students) * lm()')},
     loops={0: dict(invariant=['sum_costs_exp == Sum(q, _k, cost(flat(self.model.pairs)[q]))'])},
-    use_lemmas={'loop0.exit': [('FLAT/sum', {'rows': 'self.model.pairs', 'g': 'lam(x, 1, cost(ref(x)))'})]},
+    use_lemmas={'loop0.exit': [('FLAT/sum', {'rows': 'self.model.pairs', 'g': 'lam(x, 1, cost(ref(x)))'})],
+                'return': [('C02/sqcost-bound', {'m': 'self.model', 'sm': 'sm()', 'lm': 'lm()', 'R': 'len(self.model.rank_lists)',
+                                                 'KK': 'len(self.model.rank_lists) * len(self.model.rank_lists) * sm() + self.model.num_students * self.model.num_students * lm()'}, 'if-applicable', ['every-feasible-matching-fits-the-objective-variable'])]},
     modifies=['self.info_string', 'self.solve_performed', 'ghost:feas', 'ghost:val', 'ghost:status', 'ghost:hist', 'ghost:solves', 'ghost:objective', 'ghost:feas_at_solve', 'ghost:used:obj_minsqcost'],
     ensures=[('cost-linked-minimised-frozen', 'feas() == (old(feas()) and 0 <= nu(o()) and nu(o()) <= UB() and total() == nu(o()) and nu(o()) <= solved(o()))'),
              ('one-solve', 'solves() == old(solves()) + 1 and hist(old(solves())) == status()'), ('earlier-history-unchanged', 'forall(u, implies(u < old(solves()), hist(u) == old(hist(u))))'), ('solve-recorded', 'implies(solves() > old(solves()), self.solve_performed) and implies(solves() == old(solves()), self.solve_performed == old(self.solve_performed))'),
-             ('minimises', 'objective() == 0 - nu(o())'), ('name-used', "used('obj_minsqcost')")]),
+             ('minimises', 'objective() == 0 - nu(o())'), ('name-used', "used('obj_minsqcost')"),
+             ('every-feasible-matching-fits-the-objective-variable', 'implies(old(feas()), 0 <= total() and total() <= UB())')]),
 
  M + 'optimisation_mincostlsb': dict(
     params={'cost_multipliers': ('list', 'int')},
-    requires=MODEL_OK + ['pairs_ok(self.model)', "not used('obj_mincostlsb')"],
+    requires=MODEL_OK + ['pairs_ok(self.model)', "not used('obj_mincostlsb')", 'len(self.model.abs_lec_diff) == self.model.num_lecturers', ('pair-variables-are-binary', 'implies(feas(), pairs_binary(self.model))', ['every-feasible-matching-fits-the-objective-variable', 'parts-within-their-bounds']), ('partial-assignment-constraints-present', 'implies(feas(), rows_partial(self.model))', ['every-feasible-matching-fits-the-objective-variable', 'parts-within-their-bounds']), ('multipliers-non-negative', 'forall(t, 0, len(cost_multipliers), cost_multipliers[t] >= 0)', ['every-feasible-matching-fits-the-objective-variable', 'parts-within-their-bounds']), ('ranks-bounded', "forall(i, 0, len(self.model.pairs), forall(c, 0, len(self.model.pairs[i]), self.model.pairs[i][c].rank_student <= self.model.num_projects and implies(has(self.model.pairs[i][c], 'rank_lecturer'), 1 <= self.model.pairs[i][c].rank_lecturer and self.model.pairs[i][c].rank_lecturer <= self.model.num_students)))", ['every-feasible-matching-fits-the-objective-variable', 'parts-within-their-bounds']), ('deviation-variables-are-bounded', 'implies(feas(), forall(k, 0, self.model.num_lecturers, 0 <= nu(self.model.abs_lec_diff[k]) and nu(self.model.abs_lec_diff[k]) <= self.model.lec_upper_quotas[k]))', ['every-feasible-matching-fits-the-objective-variable', 'parts-within-their-bounds'])],
     defs={'o': ([], "namedvar('obj_mincostlsb')"),
           'sm': ([], 'ite(len(cost_multipliers) < 1, 1, cost_multipliers[0])'),
           'lm': ([], 'ite(len(cost_multipliers) < 2, 1, cost_multipliers[1])'),
           'cost': (['p'], 'nu(p.lp_var) * p.rank_student * sm()'),
+          'stud': ([], 'Sum(i, len(self.model.pairs), Sum(c, len(self.model.pairs[i]), cost(self.model.pairs[i][c])))'),
+          'devsum': ([], 'Sum(k, len(self.model.abs_lec_diff), nu(self.model.abs_lec_diff[k]))'), 'uqsum': ([], 'Sum(k, len(self.model.lec_upper_quotas), self.model.lec_upper_quotas[k])'),
           'total': ([], 'Sum(i, len(self.model.pairs), Sum(c, len(self.model.pairs[i]), cost(self.model.pairs[i][c]))) + Sum(k, len(self.model.abs_lec_diff), nu(self.model.abs_lec_diff[k])) * lm()'),
           'UB': ([], 'self.model.num_students * self.model.num_projects * sm() + Sum(k, len(self.model.lec_upper_quotas), self.model.lec_upper_quotas[k]) * lm()')},
     loops={0: dict(invariant=['sum_costs_exp == Sum(q, _k, cost(flat(self.model.pairs)[q]))'])},
-    use_lemmas={'loop0.exit': [('FLAT/sum', {'rows': 'self.model.pairs', 'g': 'lam(x, 1, cost(ref(x)))'})]},
+    use_lemmas={'loop0.exit': [('FLAT/sum', {'rows': 'self.model.pairs', 'g': 'lam(x, 1, cost(ref(x)))'})],
+                'return': [('C02/studentcost-bound', {'m': 'self.model', 'sm': 'sm()', 'lm': 'lm()', 'KK': 'self.model.num_projects * sm()'}, 'if-applicable', ['every-feasible-matching-fits-the-objective-variable', 'parts-within-their-bounds']),
+                           ('SUM/le', {'f': 'lam(k, self.model.num_lecturers, nu(self.model.abs_lec_diff[k]))', 'g': 'self.model.lec_upper_quotas', 'n': 'self.model.num_lecturers'}, 'if-applicable', ['every-feasible-matching-fits-the-objective-variable', 'parts-within-their-bounds']),
+                           ('SUM/nonneg', {'f': 'lam(k, self.model.num_lecturers, nu(self.model.abs_lec_diff[k]))', 'n': 'self.model.num_lecturers'}, 'if-applicable', ['every-feasible-matching-fits-the-objective-variable', 'parts-within-their-bounds'])]},
     modifies=['self.info_string', 'self.solve_performed', 'ghost:feas', 'ghost:val', 'ghost:status', 'ghost:hist', 'ghost:solves', 'ghost:objective', 'ghost:feas_at_solve', 'ghost:used:obj_mincostlsb'],
     ensures=[('cost-linked-minimised-frozen', 'feas() == (old(feas()) and 0 <= nu(o()) and nu(o()) <= UB() and total() == nu(o()) and nu(o()) <= solved(o()))'),
              ('one-solve', 'solves() == old(solves()) + 1 and hist(old(solves())) == status()'), ('earlier-history-unchanged', 'forall(u, implies(u < old(solves()), hist(u) == old(hist(u))))'), ('solve-recorded', 'implies(solves() > old(solves()), self.solve_performed) and implies(solves() == old(solves()), self.solve_performed == old(self.solve_performed))'),
-             ('minimises', 'objective() == 0 - nu(o())'), ('name-used', "used('obj_mincostlsb')")]),
+             ('minimises', 'objective() == 0 - nu(o())'), ('name-used', "used('obj_mincostlsb')"),
+             ('parts-within-their-bounds', 'implies(old(feas()), 0 <= stud() and stud() <= self.model.num_students * self.model.num_projects * sm() and 0 <= devsum() and devsum() <= uqsum())'),
+             ('every-feasible-matching-fits-the-objective-variable', 'implies(old(feas()), 0 <= total() and total() <= UB())')]),
 
  # ---- load balancing: abs_lec_diff[k] >= |load_k - target_k|
  M + 'loadbalancing_constraints': dict(
@@ -296,7 +309,7 @@ CONTRACTS = {
  # ---- C04 / C14 / C16: criteria are dispatched in list order; after the first solve that is not Optimal nothing more is solved
  M + 'run_optimisations': dict(
     params={'optimisation_options': ('list', 'crit')},
-    requires=MODEL_OK + ['pairs_ok(self.model)', 'has_vars(self.model.rank_lists)', 'self.model.num_lecturers >= 1', ('partial-assignment-constraints-present', 'implies(feas(), rows_partial(self.model))'), ('rank-list-sums-for-every-weight', 'forall(j, 0, len(self.model.rank_lists), wsum(self.model.rank_lists[j]) == RANKW(j))'), ('pair-variables-are-binary', 'implies(feas(), pairs_binary(self.model))'), ('deviation-variables-are-bounded', 'implies(feas() and exists(a, 0, len(optimisation_options), optimisation_options[a][0] == Optimisation_options.LOADMAXBAL or optimisation_options[a][0] == Optimisation_options.LOADSUMBAL or optimisation_options[a][0] == Optimisation_options.MINCOSTLSB), forall(k, 0, self.model.num_lecturers, 0 <= nu(self.model.abs_lec_diff[k]) and nu(self.model.abs_lec_diff[k]) <= self.model.lec_upper_quotas[k]))'),
+    requires=MODEL_OK + ['pairs_ok(self.model)', 'has_vars(self.model.rank_lists)', 'self.model.num_lecturers >= 1', ('partial-assignment-constraints-present', 'implies(feas(), rows_partial(self.model))'), ('one-rank-list-per-rank', 'is_max_rank(self.model, len(self.model.rank_lists))'), ('ranks-bounded', "forall(i, 0, len(self.model.pairs), forall(c, 0, len(self.model.pairs[i]), self.model.pairs[i][c].rank_student <= self.model.num_projects and implies(has(self.model.pairs[i][c], 'rank_lecturer'), 1 <= self.model.pairs[i][c].rank_lecturer and self.model.pairs[i][c].rank_lecturer <= self.model.num_students)))"), ('cost-multipliers-non-negative', 'forall(a, 0, len(optimisation_options), implies((optimisation_options[a][0] == Optimisation_options.MINCOST or optimisation_options[a][0] == Optimisation_options.MINSQCOST or optimisation_options[a][0] == Optimisation_options.MINCOSTLSB) and optimisation_options[a][1] != None, forall(t, 0, len(optimisation_options[a][1]), optimisation_options[a][1][t] >= 0)))'), ('rank-list-sums-for-every-weight', 'forall(j, 0, len(self.model.rank_lists), wsum(self.model.rank_lists[j]) == RANKW(j))'), ('pair-variables-are-binary', 'implies(feas(), pairs_binary(self.model))'), ('deviation-variables-are-bounded', 'implies(feas() and exists(a, 0, len(optimisation_options), optimisation_options[a][0] == Optimisation_options.LOADMAXBAL or optimisation_options[a][0] == Optimisation_options.LOADSUMBAL or optimisation_options[a][0] == Optimisation_options.MINCOSTLSB), forall(k, 0, self.model.num_lecturers, 0 <= nu(self.model.abs_lec_diff[k]) and nu(self.model.abs_lec_diff[k]) <= self.model.lec_upper_quotas[k]))'),
               ('each-criterion-at-most-once', 'forall(a, 0, len(optimisation_options), forall(b, a + 1, len(optimisation_options), optimisation_options[a][0] != optimisation_options[b][0]))'),
               ('criteria-are-members', 'forall(a, 0, len(optimisation_options), 1 <= optimisation_options[a][0] and optimisation_options[a][0] <= 9)'),
               ('extras-are-lists-where-used', 'forall(a, 0, len(optimisation_options), implies(optimisation_options[a][0] == Optimisation_options.GENEROUS or optimisation_options[a][0] == Optimisation_options.GREEDY or optimisation_options[a][0] == Optimisation_options.MINCOST or optimisation_options[a][0] == Optimisation_options.MINSQCOST or optimisation_options[a][0] == Optimisation_options.MINCOSTLSB, optimisation_options[a][1] != None))'),
@@ -325,7 +338,7 @@ CONTRACTS = {
  M + 'run': dict(
     params={'msg': 'bool', 'timeLimit': 'optint', 'threads': 'optint', 'write': 'bool'},
     requires=MODEL_OK + ['pairs_ok(self.model)', 'has_vars(self.model.rank_lists)', 'self.model.num_lecturers >= 1', 'rows_sorted(self.model)',
-              ('pair-variables-are-binary', 'implies(feas(), pairs_binary(self.model))'), ('rank-list-sums-for-every-weight', 'forall(j, 0, len(self.model.rank_lists), wsum(self.model.rank_lists[j]) == RANKW(j))'), ('well-formed-lecturer-quotas', 'forall(k, 0, self.model.num_lecturers, 0 <= self.model.lec_lower_quotas[k] and 0 <= self.model.lec_targets[k] and self.model.lec_targets[k] <= self.model.lec_upper_quotas[k])'), ('deviation-variables-are-bounded', 'implies(feas() and exists(a, 0, len(self.optimisation_options), self.optimisation_options[a][0] == Optimisation_options.LOADMAXBAL or self.optimisation_options[a][0] == Optimisation_options.LOADSUMBAL or self.optimisation_options[a][0] == Optimisation_options.MINCOSTLSB), forall(k, 0, self.model.num_lecturers, 0 <= nu(self.model.abs_lec_diff[k]) and nu(self.model.abs_lec_diff[k]) <= self.model.lec_upper_quotas[k]))'),
+              ('pair-variables-are-binary', 'implies(feas(), pairs_binary(self.model))'), ('one-rank-list-per-rank', 'is_max_rank(self.model, len(self.model.rank_lists))'), ('ranks-bounded', "forall(i, 0, len(self.model.pairs), forall(c, 0, len(self.model.pairs[i]), self.model.pairs[i][c].rank_student <= self.model.num_projects and implies(has(self.model.pairs[i][c], 'rank_lecturer'), 1 <= self.model.pairs[i][c].rank_lecturer and self.model.pairs[i][c].rank_lecturer <= self.model.num_students)))"), ('cost-multipliers-non-negative', 'forall(a, 0, len(self.optimisation_options), implies((self.optimisation_options[a][0] == Optimisation_options.MINCOST or self.optimisation_options[a][0] == Optimisation_options.MINSQCOST or self.optimisation_options[a][0] == Optimisation_options.MINCOSTLSB) and self.optimisation_options[a][1] != None, forall(t, 0, len(self.optimisation_options[a][1]), self.optimisation_options[a][1][t] >= 0)))'), ('rank-list-sums-for-every-weight', 'forall(j, 0, len(self.model.rank_lists), wsum(self.model.rank_lists[j]) == RANKW(j))'), ('well-formed-lecturer-quotas', 'forall(k, 0, self.model.num_lecturers, 0 <= self.model.lec_lower_quotas[k] and 0 <= self.model.lec_targets[k] and self.model.lec_targets[k] <= self.model.lec_upper_quotas[k])'), ('deviation-variables-are-bounded', 'implies(feas() and exists(a, 0, len(self.optimisation_options), self.optimisation_options[a][0] == Optimisation_options.LOADMAXBAL or self.optimisation_options[a][0] == Optimisation_options.LOADSUMBAL or self.optimisation_options[a][0] == Optimisation_options.MINCOSTLSB), forall(k, 0, self.model.num_lecturers, 0 <= nu(self.model.abs_lec_diff[k]) and nu(self.model.abs_lec_diff[k]) <= self.model.lec_upper_quotas[k]))'),
               'implies(self.extra_constraints[Extra_constraints.STAB], two_sided(self.model) and stab_vars(self.model.pairs) and lists_two_sided(self.model.lecturer_lists))',
               'implies(self.instance_options[Instance_options.PC], len(self.model.project_closures) == self.model.num_projects)',
               ('each-criterion-at-most-once', 'forall(a, 0, len(self.optimisation_options), forall(b, a + 1, len(self.optimisation_options), self.optimisation_options[a][0] != self.optimisation_options[b][0]))'),
